@@ -147,6 +147,13 @@ theorem guarded_accesses_exclusive (ok : LockId → LockId → Prop) (s : St) (h
   · rw [hw] at this; exact absurd this.1 (by decide)
   · rw [hw] at this; exact absurd this.2 (by decide)
 
+/-- The datum rule "what leaves a shard lock is a copy": live shard state (a *destination stored in a
+shard map, a slice aliasing its knownPathList) handed to a caller that does not hold the shard lock is
+acceptable under NO set of held locks — every such flow the extractor finds is a violation. -/
+theorem escape_rule_unsatisfiable (h : Held) : guardOk .never h = false := rfl
+
+example : guardOf "shardEscape" false = some .never := rfl
+
 example : guardOk .sentPaths [(.shared, .R), (.bucket, .W), (.refresh, .R)] = true
     ∧ guardOk .sentPaths [(.shared, .W), (.refresh, .W)] = true
     ∧ guardOk .sentPaths [(.shared, .R), (.bucket, .W)] = false := by decide
